@@ -377,8 +377,19 @@ func checkLaws(t *table, vals []val, keep func(idx ...int) bool) ([]finding, law
 // strings at all. Other needles are outside the oracle.
 func inLawApplies(container, needle object.Object) bool {
 	if _, ok := container.(*object.String); ok {
-		if s, ok := needle.(*object.String); ok {
+		switch s := needle.(type) {
+		case *object.String:
 			return len([]rune(s.Value())) == 1
+		case *object.ByteSlice:
+			return false // subsequence search, like a string needle
+		}
+	}
+	// a byte_slice searches for a subsequence when the needle is a byte_slice or a string; single
+	// bytes and numbers are elements
+	if _, ok := container.(*object.ByteSlice); ok {
+		switch needle.(type) {
+		case *object.String, *object.ByteSlice:
+			return false
 		}
 	}
 	return true
